@@ -259,6 +259,10 @@ impl<TStdlib: Stdlib, TStdIn: Input, TStdOut: Printer, TLpt1: Printer> Interpret
                 Err(e) => {
                     self.last_error_code = Some(e.err().get_code());
                     match ctx.error_handler {
+                        // an error raised by the error handler itself, before its RESUME, is fatal
+                        ErrorHandler::Address(_) if self.last_error_address.is_some() => {
+                            return Err(e.with_stacktrace(&mut self.stacktrace));
+                        }
                         ErrorHandler::Address(handler_address) => {
                             self.restore_statement_snapshot();
                             // store error address, so we can call RESUME and RESUME NEXT from within the error handler
